@@ -374,6 +374,30 @@ func (w *ResponseWriter) Flush() {
 	st.flushLocked()
 }
 
+// Abort ends the response like a connection that dies: what was written so far (flushed or not)
+// reaches the client, then its next read fails with err (io.EOF = orderly close).
+//
+//go:norace
+func (w *ResponseWriter) Abort(err error) {
+	st := w.st
+	vsched.YieldObjs("net.abort", append([]uintptr{st.id()}, vsched.CtxFootprint(st.srvCtxID)...))
+	st.mu.Lock()
+	if !st.wclosed {
+		st.flushLocked()
+		if err != io.EOF {
+			st.readErr = err
+		}
+		st.wclosed = true
+	}
+	st.mu.Unlock()
+	st.srvCancel()
+}
+
+// Exchange returns the record of the exchange this writer answers.
+//
+//go:norace
+func (w *ResponseWriter) Exchange() *Exchange { return w.st.x }
+
 //go:norace
 func (w *ResponseWriter) finish() {
 	st := w.st
